@@ -12,7 +12,7 @@ import (
 // the object is re-read through Get and must equal the model (otherwise
 // bad is called once for that chunk).
 func Iterate[T comparable, P Object[T]](im *Impl[T, P], dims []Dim, bg spec.Assignment, workers int,
-	fn func(idx int, a spec.Assignment, o *T), bad func(a spec.Assignment, why string), stop func() bool) {
+	fn func(idx int, a spec.Assignment, o *T), bad func(idx int, a spec.Assignment, why string), stop func() bool) {
 	ver := im.Ver
 	n := 1
 	for _, d := range dims {
@@ -39,7 +39,7 @@ func Iterate[T comparable, P Object[T]](im *Impl[T, P], dims []Dim, bg spec.Assi
 		var o T
 		for mi, m := range ver.Metrics {
 			if err := P(&o).Set(m.Abv, m.Values[a[mi]]); err != nil {
-				bad(a, "Set("+m.Abv+","+m.Values[a[mi]]+") failed: "+err.Error())
+				bad(lo, a, "Set("+m.Abv+","+m.Values[a[mi]]+") failed: "+err.Error())
 				return
 			}
 		}
@@ -57,7 +57,7 @@ func Iterate[T comparable, P Object[T]](im *Impl[T, P], dims []Dim, bg spec.Assi
 				a[d.M] = d.Vals[dg[j]]
 				m := ver.Metrics[d.M]
 				if err := P(&o).Set(m.Abv, m.Values[a[d.M]]); err != nil {
-					bad(a, "Set("+m.Abv+","+m.Values[a[d.M]]+") failed: "+err.Error())
+					bad(idx+1, a, "Set("+m.Abv+","+m.Values[a[d.M]]+") failed: "+err.Error())
 					return
 				}
 				if dg[j] != 0 {
@@ -68,7 +68,7 @@ func Iterate[T comparable, P Object[T]](im *Impl[T, P], dims []Dim, bg spec.Assi
 		for mi, m := range ver.Metrics {
 			v, err := P(&o).Get(m.Abv)
 			if err != nil || v != m.Values[a[mi]] {
-				bad(a, "after odometer walk Get("+m.Abv+") = "+v+", model "+m.Values[a[mi]])
+				bad(hi-1, a, "after odometer walk Get("+m.Abv+") = "+v+", model "+m.Values[a[mi]])
 				return
 			}
 		}
@@ -203,8 +203,32 @@ func objForReplay[T comparable, P Object[T]](im *Impl[T, P], c *Case) (spec.Assi
 		return nil, zero, fmt.Errorf("replay vector not in the language")
 	}
 	if ops := argOps(c); len(ops) > 0 {
-		return a, ObjFromOps[T, P](ops), nil
+		o := ObjFromOps[T, P](ops)
+		for mi, m := range im.Ver.Metrics {
+			if v, err := P(&o).Get(m.Abv); err != nil || v != m.Values[a[mi]] {
+				return a, o, fmt.Errorf("object built by the stored Set sequence does not read back: Get(%q) = %q, %v; last value Set was %q", m.Abv, v, err, m.Values[a[mi]])
+			}
+		}
+		return a, o, nil
 	}
 	o, err := NewOS(im, NewReport("x", "quick", 0)).Build(a)
 	return a, o, err
+}
+
+// iterBad builds the `bad` callback of an Iterate sweep: the object reached by the sweep's Set path does not
+// read back as the model assignment. Reported with the exact (minimised) Set path.
+func iterBad[T comparable, P Object[T]](r *Report, im *Impl[T, P], dims []Dim, bg spec.Assignment, kind string) func(idx int, a spec.Assignment, why string) {
+	ver := im.Ver
+	pred := func(a spec.Assignment, o *T) string {
+		for mi, m := range ver.Metrics {
+			v, err := P(o).Get(m.Abv)
+			if err != nil || v != m.Values[a[mi]] {
+				return "ill-formed"
+			}
+		}
+		return ""
+	}
+	return func(idx int, a spec.Assignment, why string) {
+		iterViolation(r, im, dims, bg, 16, idx, a, kind, "v"+ver.Name+"/object-reached-by-Set-calls-does-not-read-back", "every Get equals the value last Set", why, nil, pred)
+	}
 }
